@@ -144,22 +144,24 @@ func newLockEngine(p *Prog, pkgs ...string) *lockEngine {
 			e.entry[fn] = lockset{}
 		}
 	}
-	for iter := 0; iter < 20; iter++ {
-		changed := false
+	for iter := 0; iter < 30; iter++ {
 		for _, fn := range e.fns {
 			e.flow(fn)
 		}
+		// Jacobi step: all new entries are computed from the same snapshot of `before`
+		next := map[*ssa.Function]lockset{}
 		for _, fn := range e.fns {
-			if _, fixed := e.entry[fn]; fixed && !e.top[fn] && len(e.entry[fn]) == 0 {
+			if _, fixed := e.entry[fn]; fixed && !e.top[fn] && (fn.Parent() != nil || len(p.callersOf(fn)) == 0) {
 				continue
 			}
 			edges := p.callersOf(fn)
 			var acc lockset
 			first := true
+			bottom := false
 			for _, ed := range edges {
 				call, isCall := ed.Site.(*ssa.Call)
 				if !isCall || !inScope[ed.Caller.Func] {
-					acc, first = lockset{}, false
+					bottom = true
 					break
 				}
 				// constructor exemption: receiver/first argument is a fresh object of the caller
@@ -179,9 +181,17 @@ func newLockEngine(p *Prog, pkgs ...string) *lockEngine {
 					acc = meet(acc, ls)
 				}
 			}
+			if bottom {
+				next[fn] = lockset{}
+				continue
+			}
 			if first {
 				continue
 			}
+			next[fn] = acc
+		}
+		changed := false
+		for fn, acc := range next {
 			if e.top[fn] || !acc.equal(e.entry[fn]) {
 				delete(e.top, fn)
 				e.entry[fn] = acc
